@@ -44,7 +44,7 @@ func poolAddr(t *rapid.T, p *Pool, label string) []byte {
 }
 
 // decoyLayout: the same event with a different number of indexed inputs.
-func decoyLayout(t *rapid.T, e *refmodel.Event) *refmodel.Event {
+func decoyLayout(t *rapid.T, e *refmodel.Event, declared []*refmodel.Event) *refmodel.Event {
 	c := refmodel.CloneEvent(e, false)
 	var flippable []int
 	for i, in := range c.Inputs {
@@ -59,6 +59,18 @@ func decoyLayout(t *rapid.T, e *refmodel.Event) *refmodel.Event {
 	}
 	i := rapid.SampledFrom(flippable).Draw(t, "flip")
 	c.Inputs[i].Indexed = !c.Inputs[i].Indexed
+	// A log whose layout has the signature and the topic count of a declared
+	// event but other indexed positions cannot be told apart from that event by
+	// any decoder (ABI limitation): not a decoy.
+	for _, d := range declared {
+		if d.Signature() == c.Signature() && d.NumIndexed() == c.NumIndexed() {
+			for j := range d.Inputs {
+				if d.Inputs[j].Indexed != c.Inputs[j].Indexed {
+					return nil
+				}
+			}
+		}
+	}
 	return c
 }
 
@@ -73,7 +85,7 @@ func GenLog(t *rapid.T, o ChainOpts) sim.Log {
 	case kind <= 4 && len(o.Events) > 0:
 		return mk(rapid.SampledFrom(o.Events).Draw(t, "which"), "match")
 	case kind <= 6 && len(o.Events) > 0:
-		if d := decoyLayout(t, rapid.SampledFrom(o.Events).Draw(t, "which")); d != nil {
+		if d := decoyLayout(t, rapid.SampledFrom(o.Events).Draw(t, "which"), o.Events); d != nil {
 			return mk(d, "decoy-layout")
 		}
 		fallthrough
